@@ -180,6 +180,8 @@ def py_rhs(uni, rhs):
     if k == "num":
         return rhs["c"]
     nd = np.array([float(v) for v in rhs["values"]]).reshape(tuple(rhs["shape"]))
+    if rhs.get("dtype"):
+        nd = nd.astype(rhs["dtype"])               # the same whole numbers held in another number type
     sub = rhs.get("subclass")
     if sub == "masked":
         nd = np.ma.masked_array(nd)                 # no entry masked: the same numbers in an ndarray subclass
